@@ -131,6 +131,16 @@ def gen(rng, tier):
                     c_["values"][r_] = None
         ops = [["build", fidx, 0], ["build", fidx, 0], ["common", 1, 0], ["build", fidx, 0]]
         cases.append({"frames": frames, "ops": ops, "kind": "exact-columns"})
+    # the SAME frame object evaluated again after the policy changed: every evaluation answers for the policy in
+    # force now (frame 2 holds an unseen level of g)
+    for i in range(40 if tier == "thorough" else 8):
+        fidx = rng.choice([1, 3, 5, 6])
+        seq = rng.choice([["silent", "error", "warning"], ["warning", "error"], ["silent", "error"], ["warning", "silent", "error"]])
+        ops = [["build", fidx, 0]]
+        for mode in seq:
+            ops += [["config", mode], ["common", 0, 2]]
+        ops += [["group", 0, 2]] if fidx in (3, 5) else []
+        cases.append({"frames": _pool(rng), "ops": ops, "kind": "same-frame-new-policy"})
     # a share of short histories is additionally compared with a brand-new interpreter per operation
     for i in range(60 if tier == "thorough" else 12):
         ops = [["build", rng.choice([7, 8, 1, 4, 6, 12, 13]), 0], ["build", rng.choice([7, 8, 1, 4, 6, 12, 13]), 3],
